@@ -19,7 +19,9 @@ class Managed:
         self.at = None          # label of the point it is parked at
         self.done = False
         self.error = None
-        self.thread = threading.Thread(target=self._run, name='sched-%s' % name, daemon=True)
+        # every scheduled thread carries the SAME name (a pool that names its workers alike): what belongs to a thread is
+        # told apart by the thread, never by its name
+        self.thread = threading.Thread(target=self._run, name='worker', daemon=True)
         self.steps = 0
         self.guard = None
 
